@@ -436,7 +436,8 @@ theorem combSrcResolve_ok (cfg : CombCfg) (st : CombSt) (S N OS : List Text) (h 
     ∧ (combSrcResolve st isi).1.innerNameIndexValueMapping = st.innerNameIndexValueMapping
     ∧ (combSrcResolve st isi).1.innerNameIndexMapping = st.innerNameIndexMapping
     ∧ (combSrcResolve st isi).1.innerSourceIndexValueMapping = st.innerSourceIndexValueMapping
-    ∧ (0 ≤ (combSrcResolve st isi).2.2 → (S ++ annS (combSrcResolve st isi).2.1)[(combSrcResolve st isi).2.2.toNat]? = (st.innerSourceIndexValueMapping.map (·.1))[isi]?) := by
+    ∧ (0 ≤ (combSrcResolve st isi).2.2 → (S ++ annS (combSrcResolve st isi).2.1)[(combSrcResolve st isi).2.2.toNat]? = (st.innerSourceIndexValueMapping.map (·.1))[isi]?)
+    ∧ (combSrcResolve st isi).1.innerSourceContents = st.innerSourceContents := by
   have hlen : isi < (st.innerSourceIndexValueMapping.map (·.1)).length := by rw [← h.isim.1]; exact hisi
   have hlen' : isi < st.innerSourceIndexValueMapping.length := by simpa using hlen
   obtain ⟨v, hv⟩ : ∃ v, st.innerSourceIndexMapping[isi]? = some v := ⟨_, List.getElem?_eq_getElem hisi⟩
@@ -453,7 +454,7 @@ theorem combSrcResolve_ok (cfg : CombCfg) (st : CombSt) (S N OS : List Text) (h 
     generalize globalSource S.zipIdx ((st.innerSourceIndexValueMapping[isi]?).getD ([], none)).1 ((st.innerSourceIndexValueMapping[isi]?).getD ([], none)).2 = r at n1 n2 n3 n4 hnc
     have hval : (S ++ annS r.2.1)[r.2.2]? = (st.innerSourceIndexValueMapping.map (·.1))[isi]? := by
       rw [n4, hsc, List.getElem?_map, List.getElem?_eq_getElem hlen']; rfl
-    refine ⟨n2, n3, hnc, ?_, (by first | rfl | trivial), (by first | rfl | trivial), (by first | rfl | trivial), (by first | rfl | trivial), ?_⟩
+    refine ⟨n2, n3, hnc, ?_, (by first | rfl | trivial), (by first | rfl | trivial), (by first | rfl | trivial), (by first | rfl | trivial), ?_, (by first | rfl | trivial)⟩
     · exact { sm := n1, nm := h.nm, sim := tblSem_mono _ _ _ _ h.sim, nim := h.nim, inim := h.inim, isi := h.isi,
               isim := tblSem_set _ _ _ (tblSem_mono _ _ _ _ h.isim) isi hisi _ (Or.inr (Or.inr ⟨by omega, by simp only [Int.toNat_natCast]; exact hval⟩)),
               segs := fun ld hld seg hseg => by
@@ -467,14 +468,20 @@ theorem combSrcResolve_ok (cfg : CombCfg) (st : CombSt) (S N OS : List Text) (h 
       simp only [Int.toNat_natCast]; exact hval
   · have hb : (v == -2) = false := by simpa using hv2
     simp only [hb, Bool.false_eq_true, if_false, annS, annN, List.append_nil]
-    refine ⟨trivial, (by first | rfl | trivial), fun t mm hm => (by simp at hm), h, (by first | rfl | trivial), (by first | rfl | trivial), (by first | rfl | trivial), (by first | rfl | trivial), ?_⟩
+    refine ⟨trivial, (by first | rfl | trivial), fun t mm hm => (by simp at hm), h, (by first | rfl | trivial), (by first | rfl | trivial), (by first | rfl | trivial), (by first | rfl | trivial), ?_, (by first | rfl | trivial)⟩
     intro h0
     exact (tblSem_get _ _ _ h.isim isi v hv h0).2.1
 
+/-- the outer name equals the original text at the composed location: same length, in the content recorded for inner source `isi` -/
+def OuterMatch (st : CombSt) (isi : Nat) (seg : InnerSeg) (nameIndex ioc : Int) : Prop :=
+  ∃ lines, innerContentLines st isi = some lines
+    ∧ st.nameIndexValueMapping.getD nameIndex.toNat [] = combOrigName lines seg ioc (st.nameIndexValueMapping.getD nameIndex.toNat []).length
+
 /-- where a composed chunk's name index may come from -/
-def NameFrom (st : CombSt) (N : List Text) (ini nameIndex : Int) (g : Int) : Prop :=
+def NameFrom (st : CombSt) (N : List Text) (isi : Nat) (seg : InnerSeg) (ini nameIndex ioc : Int) (g : Int) : Prop :=
   (0 ≤ ini ∧ N[g.toNat]? = st.innerNameIndexValueMapping[ini.toNat]? ∧ ini.toNat < st.innerNameIndexValueMapping.length)
-  ∨ (ini < 0 ∧ 0 ≤ nameIndex ∧ N[g.toNat]? = st.nameIndexValueMapping[nameIndex.toNat]? ∧ nameIndex.toNat < st.nameIndexValueMapping.length)
+  ∨ (ini < 0 ∧ 0 ≤ nameIndex ∧ N[g.toNat]? = st.nameIndexValueMapping[nameIndex.toNat]? ∧ nameIndex.toNat < st.nameIndexValueMapping.length
+      ∧ OuterMatch st isi seg nameIndex ioc)
 
 /-- "emit name when needed": nothing or the next name index is announced; a non-negative result is the index of an announcement
 carrying the inner map's name `ini`, or (when there is none) the outer map's name `nameIndex` -/
@@ -487,7 +494,7 @@ theorem combNameResolve_ok (cfg : CombCfg) (st : CombSt) (S N OS : List Text) (h
     ∧ KInv cfg (combNameResolve st isi seg ini nameIndex ioc).1 S (N ++ annN (combNameResolve st isi seg ini nameIndex ioc).2.1) OS
     ∧ (combNameResolve st isi seg ini nameIndex ioc).1.nameIndexValueMapping = st.nameIndexValueMapping
     ∧ (0 ≤ (combNameResolve st isi seg ini nameIndex ioc).2.2 →
-        NameFrom st (N ++ annN (combNameResolve st isi seg ini nameIndex ioc).2.1) ini nameIndex (combNameResolve st isi seg ini nameIndex ioc).2.2) := by
+        NameFrom st (N ++ annN (combNameResolve st isi seg ini nameIndex ioc).2.1) isi seg ini nameIndex ioc (combNameResolve st isi seg ini nameIndex ioc).2.2) := by
   have hstay : DeclOK ns N.length ([] : List Ev) ∧ annS ([] : List Ev) = [] ∧ (∀ t mm, Ev.chunk t mm ∉ ([] : List Ev))
       ∧ KInv cfg st S (N ++ annN []) OS ∧ st.nameIndexValueMapping = st.nameIndexValueMapping :=
     ⟨trivial, rfl, fun t mm hm => (by simp at hm), by simpa [annN] using h, rfl⟩
@@ -531,9 +538,11 @@ theorem combNameResolve_ok (cfg : CombCfg) (st : CombSt) (S N OS : List Text) (h
       have hlt2 := hni hn0
       have hlt : nameIndex.toNat < st.nameIndexMapping.length := by rw [h.nim.1]; exact hlt2
       split
-      · rename_i lines _
+      · rename_i lines hlines
         split
-        · obtain ⟨v, hv⟩ : ∃ v, st.nameIndexMapping[nameIndex.toNat]? = some v := ⟨_, List.getElem?_eq_getElem hlt⟩
+        · rename_i hmatch
+          have hom : OuterMatch st isi seg nameIndex ioc := ⟨lines, hlines, by simpa using hmatch⟩
+          obtain ⟨v, hv⟩ : ∃ v, st.nameIndexMapping[nameIndex.toNat]? = some v := ⟨_, List.getElem?_eq_getElem hlt⟩
           simp only [hv, Option.getD_some]
           by_cases hv2 : v = -2
           · subst hv2
@@ -544,12 +553,12 @@ theorem combNameResolve_ok (cfg : CombCfg) (st : CombSt) (S N OS : List Text) (h
             generalize globalName N.zipIdx st.nameIndexValueMapping[nameIndex.toNat] = r at n1 n2 n3 n4 hnc
             have hval : (N ++ annN r.2.1)[r.2.2]? = st.nameIndexValueMapping[nameIndex.toNat]? := by
               rw [n4, List.getElem?_eq_getElem hlt2]
-            refine ⟨n2, n3, hnc, ?_, (by first | rfl | trivial), fun _ => Or.inr ⟨hineg, hn0, by simp only [Int.toNat_natCast]; exact hval, hlt2⟩⟩
+            refine ⟨n2, n3, hnc, ?_, (by first | rfl | trivial), fun _ => Or.inr ⟨hineg, hn0, by simp only [Int.toNat_natCast]; exact hval, hlt2, hom⟩⟩
             exact { sm := h.sm, nm := n1, sim := h.sim, inim := tblSem_mono _ _ _ _ h.inim, isim := h.isim, isi := h.isi, segs := h.segs,
                     nim := tblSem_set _ _ _ (tblSem_mono _ _ _ _ h.nim) nameIndex.toNat hlt _ (Or.inr (Or.inr ⟨by omega, by simp only [Int.toNat_natCast]; exact hval⟩)) }
           · have hb : (v == -2) = false := by simpa using hv2
             simp only [hb, Bool.false_eq_true, if_false]
-            refine ⟨s1, s2, s3, s4, (by first | exact s5 | trivial), fun h0 => Or.inr ⟨hineg, hn0, ?_, hlt2⟩⟩
+            refine ⟨s1, s2, s3, s4, (by first | exact s5 | trivial), fun h0 => Or.inr ⟨hineg, hn0, ?_, hlt2, hom⟩⟩
             simp only [annN, List.append_nil]
             exact (tblSem_get _ _ _ h.nim nameIndex.toNat v hv h0).2.1
         · exact ⟨s1, s2, s3, s4, (by first | exact s5 | trivial), fun h0 => absurd h0 (by show ¬ (0 : Int) ≤ -1; decide)⟩
@@ -573,7 +582,8 @@ def FoundSem (st : CombSt) (S N : List Text) (chunk : Option Text) (m : Mapping)
     ∧ (y.col = seg.col.toNat ∨ (0 < origCol - seg.gc ∧ y.col = (seg.col + (origCol - seg.gc)).toNat))
     ∧ ∀ k, y.name = some k →
         (0 ≤ seg.name ∧ y.col = seg.col.toNat ∧ N[k]? = st.innerNameIndexValueMapping[seg.name.toNat]? ∧ seg.name.toNat < st.innerNameIndexValueMapping.length)
-        ∨ (0 ≤ nameIndex ∧ N[k]? = st.nameIndexValueMapping[nameIndex.toNat]? ∧ nameIndex.toNat < st.nameIndexValueMapping.length)
+        ∨ (0 ≤ nameIndex ∧ N[k]? = st.nameIndexValueMapping[nameIndex.toNat]? ∧ nameIndex.toNat < st.nameIndexValueMapping.length
+            ∧ ∃ ioc : Int, y.col = ioc.toNat ∧ OuterMatch st seg.src.toNat seg nameIndex ioc)
 
 theorem combFound_ok (cfg : CombCfg) (st : CombSt) (S N OS : List Text) (h : KInv cfg st S N OS) (chunk : Option Text) (m : Mapping) (seg : InnerSeg) (ic : Text)
     (origCol nameIndex : Int) (hs0 : 0 ≤ seg.src) (hs1 : seg.src < st.innerSourceIndexMapping.length) (hn1 : seg.name < st.innerNameIndexMapping.length)
@@ -586,10 +596,10 @@ theorem combFound_ok (cfg : CombCfg) (st : CombSt) (S N OS : List Text) (h : KIn
   unfold combFound
   dsimp only
   have hisi : seg.src.toNat < st.innerSourceIndexMapping.length := by omega
-  obtain ⟨a1, a2, a3, a4, a5, a6, a7, a8, a9⟩ := combSrcResolve_ok cfg st S N OS h seg.src.toNat hisi N.length
+  obtain ⟨a1, a2, a3, a4, a5, a6, a7, a8, a9, a10⟩ := combSrcResolve_ok cfg st S N OS h seg.src.toNat hisi N.length
   have hadj := combAdj_pos st seg ic (origCol - seg.gc)
   generalize combAdj st seg ic (origCol - seg.gc) = adj at hadj
-  generalize combSrcResolve st seg.src.toNat = rS at a1 a2 a3 a4 a5 a6 a7 a8 a9
+  generalize combSrcResolve st seg.src.toNat = rS at a1 a2 a3 a4 a5 a6 a7 a8 a9 a10
   have hini : 0 ≤ (if adj = true then (-1 : Int) else seg.name) → (if adj = true then (-1 : Int) else seg.name).toNat < rS.1.innerNameIndexMapping.length := by
     intro h0
     rw [a7]
@@ -633,7 +643,7 @@ theorem combFound_ok (cfg : CombCfg) (st : CombSt) (S N OS : List Text) (h : KIn
       by_cases hge2 : rN.2.2 ≥ 0
       · simp only [hge2, if_true, Option.some.injEq] at hk; subst hk
         rw [hcN, ← List.length_append]
-        rcases b6 hge2 with ⟨_, q, q2⟩ | ⟨_, _, q, q2⟩
+        rcases b6 hge2 with ⟨_, q, q2⟩ | ⟨_, _, q, q2, _⟩
         · rw [List.getElem?_eq_getElem q2] at q; exact (List.getElem?_eq_some_iff.1 q).1
         · rw [List.getElem?_eq_getElem q2] at q; exact (List.getElem?_eq_some_iff.1 q).1
       · simp only [hge2, if_false] at hk; cases hk
@@ -657,7 +667,7 @@ theorem combFound_ok (cfg : CombCfg) (st : CombSt) (S N OS : List Text) (h : KIn
           | false => exact Or.inl (by simp)
         · by_cases hge2 : rN.2.2 ≥ 0
           · simp only [hge2, if_true, Option.some.injEq] at hk; subst hk
-            rcases b6 hge2 with ⟨q0, q, q2⟩ | ⟨_, q0, q, q2⟩
+            rcases b6 hge2 with ⟨q0, q, q2⟩ | ⟨_, q0, q, q2, q3⟩
             · cases adj with
               | true => simp at q0
               | false =>
@@ -665,7 +675,12 @@ theorem combFound_ok (cfg : CombCfg) (st : CombSt) (S N OS : List Text) (h : KIn
                 rw [a6] at q q2
                 exact Or.inl ⟨q0, trivial, q, q2⟩
             · rw [a5] at q q2
-              exact Or.inr ⟨q0, q, q2⟩
+              refine Or.inr ⟨q0, q, q2, _, rfl, ?_⟩
+              obtain ⟨lines, l1, l2⟩ := q3
+              refine ⟨lines, ?_, by rw [a5] at l2; exact l2⟩
+              unfold innerContentLines at l1 ⊢
+              rw [a10] at l1
+              exact l1
           · simp only [hge2, if_false] at hk; cases hk
       · cases hy
 
